@@ -167,7 +167,8 @@ def check(c):
                                             "generation %d: serialised text does not load: %s: %s\nserialised:\n%s\nsource:\n%s" % (
                                                 gen, type(e).__name__, e, t, cur_text)))
             return out
-        mm = canon.compare_programs(cur, nxt)
+        with canon.strict_zero_sign():
+            mm = canon.compare_programs(cur, nxt)
         for m in mm:
             if m.cls == "parameters":
                 lost = set(cur.parameters) - set(nxt.parameters)
